@@ -14,6 +14,7 @@ mod c11;
 mod c12;
 mod c13;
 mod c14;
+mod c15;
 mod ctx;
 mod drv;
 mod gen;
@@ -46,6 +47,7 @@ fn dispatch_run(prop: &str, ctx: &mut Ctx) -> bool {
         "C12" => c12::run(ctx),
         "C13" => c13::run(ctx),
         "C14" => c14::run(ctx),
+        "C15" => c15::run(ctx),
         _ => return false,
     }
     true
@@ -67,6 +69,7 @@ fn dispatch_replay(prop: &str, ctx: &mut Ctx, scenario: &Value) -> Result<(), St
         "C12" => c12::replay(ctx, scenario),
         "C13" => c13::replay(ctx, scenario),
         "C14" => c14::replay(ctx, scenario),
+        "C15" => c15::replay(ctx, scenario),
         _ => Err(format!("no replay for {prop}")),
     }
 }
@@ -81,6 +84,10 @@ fn main() {
     let k = drv::compiled_k();
     if cmd == "consts" {
         println!("{}", serde_json::to_string(&k).unwrap());
+        return;
+    }
+    if cmd == "c15child" {
+        c15::child(&args);
         return;
     }
     if cmd == "c07child" {
